@@ -6,8 +6,9 @@ accept  (handler must run and see exactly the signed payload):
         Authorization == "Bearer " + h.p.s, exactly three parts, s == base64url_nopad(HMAC_alg(secret, h.p)) as a string,
         h decodes (strict base64url, no padding) to a JSON object whose "alg" is the configured algorithm, p decodes to JSON,
         and the exp/nbf/iat claims (JSON numbers) admit the clock reading taken around the request.
-either  the statement is silent: correctly signed but header carries typ/cty other than JWT or is oddly spaced, claims that are
-        not JSON numbers, payload not a JSON object, scheme in another letter case.
+either  the statement is silent: correctly signed but header carries typ/cty other than JWT or is oddly spaced,
+        payload not a JSON object, scheme in another letter case.
+        (A time claim that is present but not a JSON number admits no time: reject.)
 reject  everything else (and every OPTIONS request: the handler must not run).
 Prints one JSON object: {"evaluations", "violations": [...], "counters": {...}, "disagreements_with_worker": n}.
 """
@@ -84,7 +85,7 @@ def judge_token(c, tok):
             if claim in pv:
                 x = pv[claim]
                 if isinstance(x, bool) or not isinstance(x, (int, float)):
-                    silent = True
+                    ok = False  # present but not a NumericDate: it admits no time at all
                     continue
                 if claim == "exp" and not (now < x):
                     ok = False
